@@ -70,6 +70,11 @@ def generate(G):
              domains=domains or "leaf values and seed elements: D4 unless stated in the skeleton")
 
     # ---- (i) enumerated DAG programs on shape [2]
+    # quick core: all 1-node programs and a structurally spread dozen of the 2-node ones; the rest
+    # of the unordered 2-node programs, the ordered ones and the 3-node ones are the thorough pool
+    quick_dags = {"Dag_al0l1", "Dag_ml0l1", "Dag_ml0l0", "Dag_al0l0",
+                  "Dag_ml0l1_an0l0", "Dag_ml0l1_mn0l1", "Dag_al0l1_mn0n0", "Dag_ml0l1_an0n0", "Dag_ml0l0_mn0n0",
+                  "Dag_al0l0_ml1n0", "Dag_ml1l1_al0n0", "Dag_al0l1_ml0n0"}
     for n, ordered, tier in [(1, False, "quick"), (2, False, "quick"), (1, True, "thorough"), (2, True, "thorough"),
                              (3, False, "thorough")]:
         for (name, nl, body, desc) in dag_programs(n, ordered):
@@ -78,7 +83,7 @@ def generate(G):
             if id in G._ids:
                 continue
             ls = [G.leaf([2])] * nl
-            grad_ob(id, "programs::" + name, ls, "Seed::Explicit(Dom::D4)", tier,
+            grad_ob(id, "programs::" + name, ls, "Seed::Explicit(Dom::D4)", tier if name in quick_dags else "thorough",
                     {"program": desc, "leaves": [[2]] * nl, "tracked": [True] * nl, "seed": "explicit D4"}, unwind=6)
     # tracked/untracked assignments of the leaves on a few two-leaf programs
     for name, desc in [("Dag_ml0l1_an0l0", "n0 = l0*l1; n1 = n0+l0"), ("Dag_al0l1_mn0n0", "n0 = l0+l1; n1 = n0*n0")]:
@@ -94,24 +99,24 @@ def generate(G):
         # id, program, leaves, seed, tier, unwind, stubs, inexact
         ("muladdshare", "MulAddShare", [L([2]), L([2])], "Explicit(Dom::D4)", "quick", 6, (), False),
         ("diamond", "Diamond", [L([2]), L([2])], "Explicit(Dom::D4)", "quick", 6, (), False),
-        ("diamond_omitted", "Diamond", [L([2]), L([2])], "Omitted", "quick", 6, (), False),
+        ("diamond_omitted", "Diamond", [L([2]), L([2])], "Omitted", "thorough", 6, (), False),
         ("square", "Square", [L([3])], "Explicit(Dom::D4)", "quick", 6, (), False),
         ("squarechain3", "SquareChain3", [L([1], "D2")], "Explicit(Dom::D4)", "quick", 6, (), False),
         ("chain5", "Chain5", [L([2]), L([2])], "Explicit(Dom::D2)", "quick", 6, (), False),
-        ("fan3", "Fan3", [L([2]), L([2])], "Explicit(Dom::D4)", "quick", 6, (), False),
-        ("bcastshare_2x3_3", "BcastShare", [L([2, 3]), L([3])], "Explicit(Dom::D2)", "quick", 9, (), False),
+        ("fan3", "Fan3", [L([2]), L([2])], "Explicit(Dom::D4)", "thorough", 6, (), False),
+        ("bcastshare_2x3_3", "BcastShare", [L([2, 3]), L([3])], "Explicit(Dom::D2)", "thorough", 12, (), False),
         ("bcastshare_2x2_1x2", "BcastShare", [L([2, 2]), L([1, 2])], "Explicit(Dom::D4)", "quick", 8, (), False),
-        ("bcastshare_2x2_2x1", "BcastShare", [L([2, 2]), L([2, 1])], "Explicit(Dom::D4)", "quick", 8, (), False),
-        ("bcasttwice_3_2x3", "BcastTwice", [L([3]), L([2, 3]), L([2, 3], tracked=False)], "Explicit(Dom::D2)", "quick", 9, (), False),
+        ("bcastshare_2x2_2x1", "BcastShare", [L([2, 2]), L([2, 1])], "Explicit(Dom::D4)", "thorough", 8, (), False),
+        ("bcasttwice_2_2x2", "BcastTwice", [L([2]), L([2, 2]), L([2, 2], tracked=False)], "Explicit(Dom::D4)", "quick", 9, (), False),
         ("unarymix", "UnaryMix", [L([2]), L([2])], "Explicit(Dom::D4)", "quick", 6, ("powf",), False),
         ("divrecip", "DivRecip", [L([2]), L([2], "Pos")], "Explicit(Dom::D4)", "quick", 6, ("powf",), False),
         ("divsum", "DivSum", [L([1, 2], "Pos")], "Explicit(Dom::D4)", "quick", 6, ("powf",), True),
-        ("sumbcast", "SumBcast", [L([2, 2, 2], "D2")], "Explicit(Dom::D2)", "quick", 12, (), False),
-        ("reshapemix", "ReshapeMix", [L([2, 3], "D2"), L([3, 2], "D2")], "Explicit(Dom::D2)", "quick", 9, (), False),
-        ("matmulshare", "MatmulShare", [L([2, 2], "D2"), L([2, 2], "D2"), L([2], "D2")], "Explicit(Dom::D2)", "quick", 8, (), False),
+        ("sumbcast", "SumBcast", [L([2, 2, 2], "D2")], "Explicit(Dom::D2)", "quick", 14, (), False),
+        ("reshapemix", "ReshapeMix", [L([2, 3], "D2"), L([3, 2], "D2")], "Explicit(Dom::D2)", "quick", 16, (), False),
+        ("matmulshare", "MatmulShare", [L([2, 2], "D2"), L([2, 2], "D2"), L([2], "D2")], "Explicit(Dom::D2)", "quick", 14, (), False),
         ("relumix", "ReluMix", [L([2], "Sgn"), L([2], "Sgn")], "Explicit(Dom::D4)", "quick", 6, (), False),
-        ("lnexp", "LnExp", [L([2], "Pos"), L([2]), L([2])], "Explicit(Dom::D4)", "quick", 6, ("ln", "exp", "powf"), True),
-        ("keepmid", "KeepMid", [L([2]), L([2])], "Explicit(Dom::D4)", "quick", 6, (), False),
+        ("lnexp", "LnExp", [L([2], "Pos"), L([2]), L([2])], "Explicit(Dom::D4)", "quick", 10, ("ln", "exp", "powf"), True),
+        ("keepmid", "KeepMid", [L([2]), L([2])], "Explicit(Dom::D4)", "thorough", 6, (), False),
         ("detachmid", "DetachMid", [L([2]), L([2])], "Explicit(Dom::D4)", "quick", 6, (), False),
         ("diamond_2x2", "Diamond", [L([2, 2], "D2"), L([2, 2], "D2")], "Explicit(Dom::D4)", "thorough", 8, (), False),
         ("fan3_3", "Fan3", [L([3]), L([3])], "Explicit(Dom::D4)", "thorough", 6, (), False),
